@@ -3,24 +3,56 @@
 //! Every subcommand either (R) replays behaviours / a transition table produced by TLC on the
 //! real crates, or (T/F) records traces / call events of the real crates as ndjson for TLC to
 //! validate.  No specification logic lives here: expected values always come from TLC.
+//!
+//! One module per property; each exposes `dispatch(cmd, args) -> Option<exit code>`.
+#![allow(dead_code)]
+mod lts;
 mod util;
 
+mod c01;
+mod c02;
+mod c03;
+mod c04;
+mod c05;
+mod c06;
+mod c07;
+mod c08;
+mod c09;
+mod c10;
+mod c12;
+mod c13;
+mod c14;
+mod c15;
+mod c16;
+mod c17;
+mod c19;
 mod c20;
-mod lts;
 
 fn main() {
     let args = util::Args::parse();
     let cmd = args.cmd.clone();
-    let rc = match cmd.as_str() {
-        "c20-map-walk" => c20::map_walk(&args),
-        "c20-map-trace" => c20::map_trace(&args),
-        "c20-interner" => c20::interner(&args),
-        "c20-kmp" => c20::kmp(&args),
-        "c20-tags" => c20::tags(&args),
-        _ => {
+    let rc = None
+        .or_else(|| c01::dispatch(&cmd, &args))
+        .or_else(|| c02::dispatch(&cmd, &args))
+        .or_else(|| c03::dispatch(&cmd, &args))
+        .or_else(|| c04::dispatch(&cmd, &args))
+        .or_else(|| c05::dispatch(&cmd, &args))
+        .or_else(|| c06::dispatch(&cmd, &args))
+        .or_else(|| c07::dispatch(&cmd, &args))
+        .or_else(|| c08::dispatch(&cmd, &args))
+        .or_else(|| c09::dispatch(&cmd, &args))
+        .or_else(|| c10::dispatch(&cmd, &args))
+        .or_else(|| c12::dispatch(&cmd, &args))
+        .or_else(|| c13::dispatch(&cmd, &args))
+        .or_else(|| c14::dispatch(&cmd, &args))
+        .or_else(|| c15::dispatch(&cmd, &args))
+        .or_else(|| c16::dispatch(&cmd, &args))
+        .or_else(|| c17::dispatch(&cmd, &args))
+        .or_else(|| c19::dispatch(&cmd, &args))
+        .or_else(|| c20::dispatch(&cmd, &args))
+        .unwrap_or_else(|| {
             eprintln!("unknown subcommand {cmd}");
             2
-        }
-    };
+        });
     std::process::exit(rc);
 }
